@@ -190,6 +190,42 @@ func (g *dgen) stmt(depth int) {
 		g.block(depth + 1)
 		g.line("}")
 		g.feats["deleg:in-loop"] = true
+	case r < 84 && !g.twin:
+		// delegation in the init clause of a loop / switch (only the YieldFrom spelling is a simple statement)
+		switch g.rng.Intn(3) {
+		case 0:
+			g.line("for YFROM(§leaf(2, %d)); tr.B(%d); tr.E(%d) {", g.nid()*1000, g.nid(), g.nid())
+			g.line("\ttr.E(%d)", g.nid())
+			g.line("}")
+		case 1:
+			g.line("for YFROM(§leaf(1, %d)); tr.B(%d); tr.E(%d) {", g.nid()*1000, g.nid(), g.nid())
+			g.block(depth + 1)
+			g.line("}")
+		default:
+			g.line("switch YFROM(§chain(1)); tr.N(%d, 2) {", g.nid())
+			g.line("case 0:")
+			g.line("\ttr.E(%d)", g.nid())
+			g.line("}")
+		}
+		g.feats["deleg:in-init-clause"] = true
+	case r < 87:
+		// a type switch whose case leaves it by break, with delegation before and after
+		tv := fmt.Sprintf("tv%d", g.nid())
+		g.line("switch %s := tr.Any(%d, 3).(type) {", tv, g.nid())
+		g.line("case int:")
+		g.line("\ttr.U(%s)", tv)
+		g.line("\tif tr.B(%d) {", g.nid())
+		g.line("\t\tbreak")
+		g.line("\t}")
+		g.ind++
+		g.delegate(g.delegExpr())
+		g.ind--
+		g.line("case string:")
+		g.line("\ttr.U(%s)", tv)
+		g.line("default:")
+		g.line("\ttr.U(%s)", tv)
+		g.line("}")
+		g.feats["deleg:typeswitch-break"] = true
 	case r < 90:
 		g.line("switch tr.N(%d, 3) {", g.nid())
 		g.line("case 0:")
